@@ -1407,3 +1407,72 @@ func IsCallToDeep(in ssa.Instruction, names ...string) bool {
 	})
 	return found
 }
+
+// OrderFact: the ordering the conditional edge establishes between two integer values, however the test is
+// spelled (<, <=, >, >=, negations): lo < hi (strict) or lo <= hi. ok=false for other conditions.
+func OrderFact(e CondEdge) (lo, hi ssa.Value, strict, ok bool) {
+	cond, branch := e.If.Cond, e.Branch
+	for {
+		if u, isNot := cond.(*ssa.UnOp); isNot && u.Op == token.NOT {
+			cond, branch = u.X, !branch
+			continue
+		}
+		break
+	}
+	bo, isBO := cond.(*ssa.BinOp)
+	if !isBO {
+		return nil, nil, false, false
+	}
+	x, y := stripConv(bo.X), stripConv(bo.Y)
+	switch bo.Op {
+	case token.LSS: // x < y ; negated: y <= x
+		if branch {
+			return x, y, true, true
+		}
+		return y, x, false, true
+	case token.LEQ: // x <= y ; negated: y < x
+		if branch {
+			return x, y, false, true
+		}
+		return y, x, true, true
+	case token.GTR: // x > y = y < x ; negated: x <= y
+		if branch {
+			return y, x, true, true
+		}
+		return x, y, false, true
+	case token.GEQ: // x >= y = y <= x ; negated: x < y
+		if branch {
+			return y, x, false, true
+		}
+		return x, y, true, true
+	}
+	return nil, nil, false, false
+}
+
+// MinSelect recognises v = min(a, b) written as a conditional assignment: a phi with two incoming values, each
+// taken on a path that established it to be the smaller (or equal) one. same decides whether two SSA values
+// denote the same quantity (identity is always accepted).
+func MinSelect(v ssa.Value, same func(x, y ssa.Value) bool) (a, b ssa.Value, ok bool) {
+	leaves := PhiLeaves(v)
+	if len(leaves) != 2 {
+		return nil, nil, false
+	}
+	eq := func(x, y ssa.Value) bool {
+		x, y = stripConv(x), stripConv(y)
+		return x == y || (same != nil && same(x, y))
+	}
+	for i := 0; i < 2; i++ {
+		l, o := leaves[i], leaves[1-i]
+		smaller := false
+		for _, e := range l.Conds {
+			lo, hi, _, isOrd := OrderFact(e)
+			if isOrd && eq(lo, l.Val) && eq(hi, o.Val) {
+				smaller = true
+			}
+		}
+		if !smaller {
+			return nil, nil, false
+		}
+	}
+	return leaves[0].Val, leaves[1].Val, true
+}
